@@ -161,7 +161,38 @@ void harness(void)
 	INO.i.base.mode = (MODE == 2 ? S_IFLNK : S_IFREG) | 0644;
 	memcpy(INO.i.extra, target, TLEN + 1);
 
-#if MODE == 1
+#if MODE == 4
+	/* the root directory itself: its permission bits and owner must be in the
+	   listing, as a `dir` line whose path is the root ("/" or "") */
+	{
+		unsigned perm = ND_U16() & 07777, ruid = ND_U8() & 7, rgid = 10 + (ND_U8() & 7);	/* number formatting is the harness' own printf model: small ids suffice */
+		char want_mode[8], want_uid[8], want_gid[8], pathtok[4];
+		size_t save;
+		RINO.base.mode = S_IFDIR | perm;
+		ROOT.n.uid = ruid; ROOT.n.gid = rgid;
+		ROOT.n.children = NULL;
+		/* expected number tokens, formatted with the capture buffer BEFORE it is used for the listing (the tokeniser works in place) */
+		(void)save;
+		cap_n = 0; putnum(perm, 8); memcpy(want_mode + 1, cap, cap_n + 1); want_mode[0] = '0';
+		cap_n = 0; putnum(ruid, 10); memcpy(want_uid, cap, cap_n + 1);
+		cap_n = 0; putnum(rgid, 10); memcpy(want_gid, cap, cap_n + 1);
+		cap_n = 0; cap[0] = 0;
+		ret = describe_tree(&ROOT.n, NULL);
+		VP_ASSERT(ret == 0, "describe prints the root");
+		VP_ASSERT(cap_n >= 1 && cap[cap_n - 1] == '\n', "C16: the root directory's attributes are part of the listing (one `dir` line for /)");
+		if (cap_n < 1) return;
+		cap[--cap_n] = 0;
+		ret = split_line(cap, cap_n, " \t", &sp);
+		VP_ASSERT(ret == SPLIT_LINE_OK && sp->count == 5, "the root line has 5 fields");
+		if (ret != SPLIT_LINE_OK || sp->count != 5) return;
+		strncpy(pathtok, sp->args[1], 3); pathtok[3] = 0;
+		VP_ASSERT(strcmp(sp->args[0], "dir") == 0 && canonicalize_name(pathtok) == 0 && pathtok[0] == 0, "C16: it is a `dir` entry for the root path");
+		VP_ASSERT(strcmp(sp->args[2], want_mode) == 0 && strcmp(sp->args[3], want_uid) == 0 && strcmp(sp->args[4], want_gid) == 0,
+			  "C16: permission bits, owner and group of the root directory survive the listing");
+		VP_REACH("tokenised");
+		return;
+	}
+#elif MODE == 1
 	ret = print_name(&NODE.n, NULL);
 	VP_ASSERT(ret == 0, "print_name prints every sane name");
 	ret = split_line(cap, cap_n, " \t", &sp);
